@@ -1,24 +1,10 @@
 #!/bin/bash
-# runs every seeded change against its property's quick check and records the outcome in its meta.json
+# runs every seeded change against its property's quick check (on private copies) and records the outcome in its
+# meta.json (keeping the blind first-run marks). usage: seeded_all.sh [k n]  — the seeds whose index mod n == k
 cd /verif
-# usage: seeded_all.sh [stream k of n]  — seeds whose index mod n == k
-k=${1:-0}; n=${2:-1}; i=-1
-for d in seeded/C*-*; do
+k=${1:-0}; n=${2:-1}; i=-1; sel=""
+for d in $(ls -d seeded/C*-* | sort -V); do
   i=$((i+1)); [ $((i % n)) -eq $k ] || continue
-  [ -f $d/patch.diff ] || continue
-  out=$(tools/seeded.sh /verif/$d 2>&1)
-  echo "== $d"; echo "$out" | grep -v "^WARNING"
-  python3 - "$d" "$out" <<'PY'
-import json,sys,re
-d,out=sys.argv[1],sys.argv[2]
-m=json.load(open(d+'/meta.json'))
-res={}
-for line in out.splitlines():
-    mm=re.match(r'^(C\d+): (CAUGHT|MISSED)( rc=\d+ ?(.*))?$',line)
-    if mm:
-        res[mm.group(1)]={"result":mm.group(2),"signatures":[s for s in (mm.group(4) or '').split(';') if s]}
-m['checks_quick']=res
-m['suite_with_change']='passes' if 'suite: passes' in out else 'fails'
-json.dump(m,open(d+'/meta.json','w'),indent=1,ensure_ascii=False)
-PY
+  sel="$sel $d"
 done
+exec tools/seeded_round.sh all $sel
